@@ -531,6 +531,9 @@ fn risk_driver(out: &str, seed: u64, n: u64) {
             extra.push(json!({"op":"fund","user":"U9","mint":d.mint,"amount":"4000000000000000000"}));
             extra.push(json!({"op":"deposit","acct":"LP","bank":d.name,"amount":"3000000000000000000","may_fail":true}));
         }
+        // (a would-be liquidator with funds in the first debt bank)
+        extra.push(json!({"op":"fund","user":"U2","mint":debts[0].mint,"amount":"4000000000000000000"}));
+        extra.push(json!({"op":"deposit","acct":"A2","bank":debts[0].name,"amount":"1000000000000000000","may_fail":true}));
         // state changes after the deposits: reduce-only collateral, stale / doctored collateral oracle
         if rng.gen_bool(0.25) {
             let c = pick(&mut rng, &cols);
@@ -608,6 +611,13 @@ fn risk_driver(out: &str, seed: u64, n: u64) {
             r.act(mkb(1000));
         }
         r.act(json!({"op":"pulse_health","acct":"A1"}));
+        // an account that has just passed the initial-margin check is not up for liquidation (recorded side branches,
+        // one per collateral bank)
+        for c in cols.iter() {
+            r.fork(&mut |r: &mut Recorder| {
+                r.act(json!({"op":"liquidate","liquidator":"A2","liquidatee":"A1","asset_bank":c.name,"liab_bank":d0.name,"amount":1}));
+            });
+        }
     }
     eprintln!("risk driver: {} scenarios, {} boundaries, {} events", n, boundaries, r.events);
     r.finish();
